@@ -36,6 +36,7 @@ func init() {
 		opt.WellFormed = true
 		opt.Hooks = 1.0
 		opt.Explicit = 0.3
+		opt.HookReuse = 0.2
 		return semCheck(r, "C10", tier, seed, opt, []string{"hook-", "preprocess-saw", "postprocess-did-not"},
 			"hook signature product (destination/source by pointer or value, with/without error, with/without the additional parameters) x non-reverse method shapes (styles, receiver, pointer-ness, arguments); instrumented hooks record deep copies and addresses of their operands; checks: each hook called exactly once, preprocess first on a destination with no field assigned yet, postprocess last on the fully assigned destination, pointer-taking hooks receive the function's own destination object, source and additional arguments equal the function's; non-trivial = at least one hook executed; distinct by file contents")
 	}
@@ -44,7 +45,7 @@ func init() {
 		opt.WellFormed = true
 		opt.Hooks = 0
 		opt.Explicit = 0.1
-		opt.OnlyClasses = []string{"slice", "identical", "getter", "convertible"}
+		opt.OnlyClasses = []string{"slice", "identical", "getter", "convertible", "assignable"}
 		return semCheck(r, "C16", tier, seed, opt, []string{"nil-source-slice", "slice-elements-differ", "slice-shares-backing"},
 			"struct pairs biased to slice fields (identical basic/named/struct/pointer/interface elements, assignable-not-identical, convertible under :typecast, slices of slices and maps, getters returning slices) executed with nil, empty and non-empty source slices; checks: destination slice has the same length and element-wise equal (converted) elements, a different backing array than the source, and a nil source leaves the destination field as it was or nil; non-trivial = at least one slice block executed; distinct by file contents")
 	}
@@ -79,6 +80,18 @@ func semPost(cr *caseRun) {
 			}
 			tg := effectiveToggles(it, m)
 			f := sem.Func{Name: m.Name, Text: gf.Text, Style: tg.Style, Reverse: tg.Reverse}
+			for _, fd := range cr.C.Struct[m.DstType] {
+				if fd.SrcName == "" || explicitlyAddressed(m, fd.Name) || !strings.HasPrefix(fd.Type, "[]") {
+					continue
+				}
+				if !(strings.HasPrefix(fd.Pair.Src, "[]") || fd.Pair.Src == "IntList") {
+					continue
+				}
+				if fd.SrcGetter && !tg.Getter {
+					continue
+				}
+				f.SlicePairs = append(f.SlicePairs, sem.SlicePair{Dst: fd.Name, Src: fd.SrcName, Getter: fd.SrcGetter, Named: fd.Type == "IntList" || fd.Pair.Src == "IntList"})
+			}
 			for _, e := range gf.Entries {
 				f.Entries = append(f.Entries, sem.Entry{Kind: e.Kind, Path: e.Path, RHS: e.RHS, Err: e.Err, Raw: e.Raw})
 			}
@@ -129,6 +142,9 @@ func semCheck(r *report.Report, prop, tier string, seed int64, opt gen.Options, 
 		func(cr *caseRun) bool { return cr.Impl.Status == 0 && cr.SemNote == "" && strings.Contains(cr.Impl.Output, " = ") },
 		func(cr *caseRun) [][2]string {
 			var vs [][2]string
+			if prop == "C10" && cr.C.Features["misfit-hook-reused"] > 0 && cr.Impl.Status == 0 {
+				vs = append(vs, [2]string{"hook-that-does-not-fit-the-method-accepted", "a hook declared for other operand types was named by :postprocess and the tool exited 0"})
+			}
 			if cr.SemNote != "" {
 				r.Count("sem-note:" + strings.SplitN(cr.SemNote, ":", 2)[0])
 				if strings.HasPrefix(cr.SemNote, "driver-") {
@@ -137,7 +153,7 @@ func semCheck(r *report.Report, prop, tier string, seed int64, opt gen.Options, 
 						r.Notes = append(r.Notes, fmt.Sprintf("seed=%d index=%d %s", cr.C.Seed, cr.C.Index, cr.SemNote))
 					}
 				}
-				return nil
+				return vs
 			}
 			if cr.Impl.Status == 0 {
 				r.Count("executed")
